@@ -1,1 +1,659 @@
+"""C15 — pathological nesting is reported as SQLParseError, never a crash.
+
+Fault enumeration over the *position* of stack exhaustion (DESIGN §4): the
+interpreter's own recursion check is made to fire with H frames of head-room
+left at API entry, H swept over 1 .. (frames needed for success + margin),
+for seeded (construct, depth, entry point, option set, input form, lexer
+state) cases; afterwards ordinary calls must still give the pristine-process
+result and the process must still be alive.
+"""
+import copy
+import random
+import re
+import sys
+
+from sim import canon, corpus, ops
+from sim.boot import PKG
+
 CHECK = 'C15'
+LEVEL = 'fault_enumeration'
+SWEEP = 64
+MARGIN = 30
+
+DEPTHS_Q = [0, 1, 2, 3, 5, 8, 12, 20, 30, 45, 60]
+DEPTHS_T = DEPTHS_Q + [80, 120, 200, 400]
+APIS = ['parse', 'parsestream', 'split', 'format', 'format', 'format']
+
+LAYOUT_KEYS = {'reindent', 'indent_width', 'indent_tabs', 'wrap_after',
+               'comma_first', 'indent_after_first', 'indent_columns',
+               'compact', 'reindent_aligned', 'strip_whitespace',
+               'use_space_around_operators'}
+
+FOLLOWUPS = [
+    ('parse', "select a from b where c = 1", None),
+    ('format', "select a, b from t where x = 1 and y in (select 1 from z)",
+     {'reindent': True}),
+    ('split', "select 1; select 2;", None),
+    ('format', "select (a + (b * c)) from t -- c\n",
+     {'keyword_case': 'upper', 'strip_comments': True}),
+    ('tokenize', corpus.PROBE_I, None),
+    ('format', "select case when a then 1 else 2 end from t",
+     {'reindent_aligned': True}),
+    ('parse', "select f(g(x)) from ((t))", None),
+]
+
+
+def population(idx):
+    return 'sweep'
+
+
+# ---------------------------------------------------------------------------
+# helpers executed in pristine forks
+
+def _call_fn(api, text, opts, form, consume):
+    import io
+    import sqlparse
+
+    def fn():
+        obj = io.StringIO(text) if form == 'sio' else text
+        if api == 'parsestream' and consume is not None:
+            g = sqlparse.parsestream(obj)
+            out = []
+            for _ in range(consume):
+                try:
+                    out.append(next(g))
+                except StopIteration:
+                    break
+            return out
+        return ops.raw_call(api, obj, opts, None)
+    return fn
+
+
+def probe_threshold(arg):
+    """Smallest head-room H (warm lexer, P = 0) at which the call no longer
+    ends in a RecursionError/SQLParseError caused by one; 0 if even ample
+    head-room fails (then the sweep uses a default range)."""
+    import sqlparse
+    from sqlparse.exceptions import SQLParseError
+    sys.setrecursionlimit(ops.AMPLE)
+    api, inp, opts, form, consume = arg
+    text = ops.materialise(inp)
+    sqlparse.parse('select 1')
+    fn = _call_fn(api, text, opts, form, consume)
+
+    def fails(H):
+        try:
+            ops.call_with_headroom(fn, H, 0)
+        except RecursionError:
+            return True
+        except SQLParseError as e:
+            return isinstance(e.__cause__, RecursionError)
+        except Exception:                        # noqa
+            return False
+        return False
+    hi = 64
+    while fails(hi):
+        hi *= 2
+        if hi > 20000:
+            return 0
+    lo = 1
+    while lo < hi:
+        mid = (lo + hi) // 2
+        if fails(mid):
+            lo = mid + 1
+        else:
+            hi = mid
+    return lo
+
+
+# ---------------------------------------------------------------------------
+# generation
+
+def draw_case(rng, tier):
+    c = rng.choice(corpus.CONSTRUCTS)
+    depths = DEPTHS_T if tier == 'thorough' else DEPTHS_Q
+    d = rng.choice(depths)
+    if d > 60 and rng.random() < 0.5:
+        d = rng.choice(DEPTHS_Q)
+    api = rng.choice(APIS)
+    opts = None
+    if api == 'format':
+        r = rng.random()
+        if r < 0.45:
+            opts = dict(rng.choice(corpus.LAYOUT_OPTS))
+        elif r < 0.75:
+            opts = dict(rng.choice(corpus.TARGETED_OPTS))
+        else:
+            opts = corpus.draw_opts(rng)
+    elif api == 'split' and rng.random() < 0.3:
+        opts = {'strip_semicolon': True}
+    form = 'sio' if rng.random() < 0.15 else 'str'
+    consume = None
+    prefix = ''
+    if api == 'parsestream':
+        if rng.random() < 0.5:
+            prefix = rng.choice(['select 1; ', 'select 1;\n-- x\n', ''])
+        if rng.random() < 0.35:
+            consume = rng.choice([1, 2])
+    return {'api': api, 'inp': {'t': 'nest', 'c': c, 'd': d},
+            'prefix': prefix, 'opts': opts, 'form': form,
+            'consume': consume}
+
+
+def _case_text_inp(case):
+    if case.get('prefix'):
+        return {'t': 'str', 'v': case['prefix'] + corpus.nest(
+            case['inp']['c'], case['inp']['d'])}
+    return case['inp']
+
+
+def gen(seed, idx, tier, ctx):
+    case_no, j = divmod(idx, SWEEP)
+    crng = random.Random('%s/%s/case/%d' % (seed, CHECK, case_no))
+    case = draw_case(crng, tier)
+    state = crng.choice(['fresh', 'fresh', 'warm'])
+    mode = crng.choice(['stride', 'dense', 'dense'])
+    base_frac = crng.random()
+    inp = _case_text_inp(case)
+    pkey = ops.ref_key(case['api'], inp, case['opts'], None) + '|%s|%s' % (
+        case['form'], case['consume'])
+    hstar = ctx.memo.get(('c15', pkey))
+    if hstar is None:
+        hstar = ctx.memo[('c15', pkey)] = ctx.in_fork(
+            'C15', 'probe_threshold',
+            [case['api'], inp, case['opts'], case['form'], case['consume']],
+            timeout=300.0)
+    top = (hstar or 120) + MARGIN
+    rng = random.Random('%s/%s/%d' % (seed, CHECK, idx))
+    P = rng.choice([0, 0, 0, 5, 40, 300])
+    if top <= SWEEP:
+        # the whole range fits: every head-room value once per lap, further
+        # laps repeat it at other padding depths
+        H = 1 + (j % top)
+        P = [0, 7, 61, 300, 1000][(j // top) % 5]
+    elif mode == 'dense':
+        base = int(base_frac * max(0, top - SWEEP))
+        H = 1 + base + j
+    else:
+        width = top / float(SWEEP)
+        H = 1 + int(j * width + rng.random() * width)
+    calls = [dict(case, inp=inp, H=H, P=P)]
+    if rng.random() < 0.25:
+        c2 = draw_case(rng, 'quick')
+        c2['inp'] = _case_text_inp(c2)
+        c2.update(H=rng.randint(1, 400), P=rng.choice([0, 9]))
+        calls.append(c2)
+        if rng.random() < 0.3:
+            calls.append(dict(case, inp=inp, H=max(1, H + rng.randint(-3, 3)),
+                              P=0))
+    fu = [FOLLOWUPS[rng.randrange(len(FOLLOWUPS))]
+          for _ in range(rng.randint(2, 4))]
+    return {'check': CHECK, 'seed': seed, 'idx': idx, 'state': state,
+            're_cold': state == 'fresh' and rng.random() < 0.15,
+            'calls': calls, 'hstar': hstar, 'mode': mode,
+            'followups': [{'api': a, 'inp': {'t': 'str', 'v': t}, 'opts': o}
+                          for a, t, o in fu],
+            'timeout': 120.0}
+
+
+def gen_deep(rng, tier, k):
+    """Deep stratum: nesting far beyond the recursion limit, at the default
+    limit and at raised limits."""
+    cheap = ['paren', 'bracket', 'func', 'arith', 'unclosed_paren',
+             'unclosed_bracket', 'unclosed_case']
+    brk = ['paren', 'bracket', 'unclosed_paren', 'unclosed_bracket']
+    quick = [(1000, 500, None), (1000, 1200, cheap), (3000, 250, None),
+             (200, 300, None), (10000, 250, cheap), (1000, 6000, brk),
+             (100, 800, None), (1000, 400, None)]
+    thorough = quick + [(1000, 3000, cheap), (1000, 20000, cheap[:4]),
+                        (100, 2000, None), (1000, 1000, None),(1000, 30000, cheap), (1000, 100000, cheap[:4]),
+                        (20000, 700, cheap), (50000, 1000, cheap[:4]),
+                        (5000, 1500, cheap), (1000, 5000, None),
+                        (3000, 600, None), (10000, 400, None)]
+    table = thorough if tier == 'thorough' else quick
+    limit, d, pool = table[k % len(table)]
+    c = rng.choice(pool or corpus.CONSTRUCTS)
+    api = rng.choice(['parse', 'split', 'format', 'parsestream'])
+    opts = None
+    if api == 'format':
+        opts = dict(rng.choice(corpus.LAYOUT_OPTS[:6]
+                               + corpus.TARGETED_OPTS[:4]))
+    fu = FOLLOWUPS[:3]
+    return {'check': CHECK, 'deep': True, 'limit': limit,
+            'state': rng.choice(['fresh', 'warm']),
+            'calls': [{'api': api, 'inp': {'t': 'nest', 'c': c, 'd': d},
+                       'opts': opts, 'form': 'str', 'consume': None}],
+            'followups': [{'api': a, 'inp': {'t': 'str', 'v': t}, 'opts': o}
+                          for a, t, o in fu],
+            'timeout': 900.0}
+
+
+def needed_refs(spec):
+    keys = []
+    for f in spec['followups']:
+        keys.append(ops.ref_key(f['api'], f['inp'], f['opts'], None))
+    if not spec.get('deep'):
+        for c in spec['calls']:
+            if c.get('consume') is None and c['inp'].get('d', 0) <= 60 and \
+                    len(c['inp'].get('v', '')) < 3000:
+                keys.append(ops.ref_key(c['api'], c['inp'], c['opts'], None))
+    return list(dict.fromkeys(keys))
+
+
+# ---------------------------------------------------------------------------
+# oracle helpers
+
+def fault_site(exc):
+    """(file, func) of the innermost sqlparse frame of the RecursionError
+    behind *exc* (or of exc itself)."""
+    err = exc
+    if not isinstance(err, RecursionError):
+        err = exc.__cause__ if isinstance(exc.__cause__, RecursionError) \
+            else None
+    if err is None:
+        return None
+    tb = err.__traceback__
+    site = None
+    outer = None
+    counts = {}
+    while tb is not None:
+        fn = tb.tb_frame.f_code.co_filename
+        if fn.startswith(PKG):
+            site = (fn[len(PKG):], tb.tb_frame.f_code.co_name)
+            counts[site] = counts.get(site, 0) + 1
+            outer = None
+        else:
+            outer = (fn.rsplit('/', 1)[-1], tb.tb_frame.f_code.co_name)
+        tb = tb.tb_next
+    if site is None:
+        return None
+    return {'file': site[0], 'func': site[1],
+            'mech': sorted('%s:%s' % k for k, n in counts.items() if n >= 3),
+            'below': outer[0] + ':' + outer[1] if outer else None}
+
+
+_ws = re.compile(r'\s+')
+
+
+def check_success(call, text, val):
+    """Round-trip and tree guarantees for a call that returned (evaluated at
+    ample stack).  Returns a message or None."""
+    api = call['api']
+    if api in ('parse', 'parsestream'):
+        stmts = list(val)
+        joined = ''.join(canon.flat_text(s) for s in stmts)
+        if call.get('consume') is None:
+            if joined.rstrip() != text.rstrip():
+                return 'parse result does not reproduce the input text'
+        elif not text.startswith(joined):
+            return 'partially consumed parsestream is not a prefix of input'
+        for s in stmts:
+            stack = [s]
+            while stack:
+                g = stack.pop()
+                if not g.tokens:
+                    return 'empty group %s in tree' % type(g).__name__
+                if g.value != canon.flat_text(g):
+                    return 'cached value of %s differs from its text' % (
+                        type(g).__name__)
+                for t in g.tokens:
+                    if t.parent is not g:
+                        return 'parent pointer of %r does not name its ' \
+                               'containing group' % (t.value[:20],)
+                    if t.is_group:
+                        stack.append(t)
+        return None
+    if api == 'split':
+        pieces = list(val)
+        if any(not p.strip() for p in pieces):
+            return 'split produced a blank piece'
+        want = _ws.sub('', text)
+        got = _ws.sub('', ''.join(pieces))
+        if (call.get('opts') or {}).get('strip_semicolon'):
+            want = want.replace(';', '')
+            got = got.replace(';', '')
+        if got != want:
+            return 'split pieces do not cover the non-blank input text'
+        return None
+    if api == 'format':
+        opts = call.get('opts') or {}
+        if set(opts) <= LAYOUT_KEYS:
+            a = sorted(_ws.sub('', text))
+            b = sorted(_ws.sub('', val))
+            if a != b:
+                return 'layout-only formatting changed the non-whitespace ' \
+                       'characters'
+        return None
+    return None
+
+
+# ---------------------------------------------------------------------------
+# execution
+
+def _do_faulted(call, H, P):
+    """Returns (kind, payload): ok/value, sqlparseerror/exc, recursion/exc,
+    other/exc."""
+    from sqlparse.exceptions import SQLParseError
+    text = ops.materialise(call['inp'])
+    fn = _call_fn(call['api'], text, call['opts'], call['form'],
+                  call.get('consume'))
+    try:
+        if H is None:
+            v = fn()
+        else:
+            v = ops.call_with_headroom(fn, H, P)
+        return 'ok', v, text
+    except SQLParseError as e:
+        return 'sqlparseerror', e, text
+    except RecursionError as e:
+        return 'recursion', e, text
+    except Exception as e:                       # noqa
+        return 'other', e, text
+
+
+def _control(call, H, P):
+    """The un-nested control at the same state and head-room, in a sibling
+    fork: does a RecursionError escape there too?"""
+    from sim.forkrun import fork_eval
+    ctl = dict(call, inp={'t': 'str', 'v': 'select 1'})
+
+    def go():
+        k, v, _t = _do_faulted(ctl, H, P)
+        return k
+    st, res = fork_eval(go, 60.0)
+    return res if st == 'ok' else 'ctl-' + st
+
+
+def run(spec, refs):
+    import sqlparse
+    sys.setrecursionlimit(ops.AMPLE)
+    viols = []
+    stats = {}
+    sigs = set()
+    sigs_nt = set()
+
+    def stat(k, n=1):
+        stats[k] = stats.get(k, 0) + n
+    if spec.get('re_cold'):
+        re.purge()
+        stat('re_cold_runs')
+    if spec['state'] == 'warm':
+        sqlparse.parse('select 1')
+        sqlparse.format('select a from b', reindent=True)
+    stat('state_' + spec['state'])
+    deep = spec.get('deep')
+    for ci, call in enumerate(spec['calls']):
+        optsig = ','.join(sorted((call.get('opts') or {}).keys())) or '-'
+        cons = call['inp'].get('c', 'text')
+        if deep:
+            old = sys.getrecursionlimit()
+            sys.setrecursionlimit(spec['limit'])
+            try:
+                kind, val, text = _do_faulted(call, None, 0)
+            finally:
+                sys.setrecursionlimit(old)
+            H = P = None
+            stat('deep_calls')
+        else:
+            H, P = call['H'], call.get('P', 0)
+            ctl = _control(call, H, P)
+            kind, val, text = _do_faulted(call, H, P)
+        stat('faulted_calls')
+        stat('outcome_' + kind)
+        site = None
+        if kind in ('sqlparseerror', 'recursion'):
+            site = fault_site(val)
+        fired = kind in ('sqlparseerror', 'recursion') and site is not None
+        if kind == 'sqlparseerror' and site is None and \
+                not isinstance(val.__cause__, RecursionError):
+            # an SQLParseError not caused by recursion (e.g. option
+            # validation): not this property's business
+            stat('sqlparseerror_not_recursion')
+        if fired:
+            stat('fault_fired')
+            stat('site_%s:%s' % (site['file'], site['func']))
+            if site.get('below'):
+                stat('site_below_' + site['below'])
+            for m in site.get('mech', ()):
+                stat('mech_' + m)
+        sig = '%s|%s|%s|%s|%s' % (
+            (site['file'] + ':' + site['func']) if site else kind, cons,
+            call['api'] + ('/part' if call.get('consume') else ''), optsig,
+            spec['state'])
+        sigs.add(sig)
+        if fired:
+            sigs_nt.add(sig)
+        base = {'call_index': ci, 'api': call['api'], 'H': H, 'P': P,
+                'construct': cons, 'depth': call['inp'].get('d'),
+                'opts': call.get('opts'), 'state': spec['state']}
+        if kind == 'recursion':
+            if deep or ctl != 'recursion':
+                v = dict(base, cls='escape:RecursionError',
+                         site=site, control=None if deep else ctl,
+                         msg='RecursionError escaped from %s (innermost '
+                             'sqlparse frame %s) although the un-nested '
+                             'control at the same head-room %s'
+                             % (call['api'],
+                                site and site['file'] + ':' + site['func'],
+                                'n/a (full limit)' if deep else
+                                'ended with ' + str(ctl)))
+                viols.append(v)
+            else:
+                stat('escape_excused_by_control')
+        elif kind == 'other':
+            ref = refs.get(ops.ref_key(call['api'], call['inp'],
+                                       call['opts'], None))
+            if ref is not None and not (ref['k'] == 'exc' and
+                                        ref['t'] == type(val).__name__):
+                viols.append(dict(
+                    base, cls='escape:' + type(val).__name__,
+                    msg='%s raised %s: %s under reduced head-room; at ample '
+                        'head-room the same call gives %s'
+                        % (call['api'], type(val).__name__, str(val)[:120],
+                           canon.short(ref))))
+            else:
+                stat('other_exception_also_at_ample_or_unknown')
+                stat('other_%s_%s' % (type(val).__name__, call['api']))
+        elif kind == 'ok':
+            ref = refs.get(ops.ref_key(call['api'], call['inp'],
+                                       call['opts'], None))
+            same = False
+            if ref is not None and call.get('consume') is None:
+                o = canon.ok_outcome(call['api'], val)
+                same = canon.same(o, ref)
+                if not same:
+                    stat('success_differs_from_ample')
+            if not same:
+                msg = check_success(call, text, val)
+                stat('success_guarantees_checked')
+                if msg:
+                    viols.append(dict(base, cls='bad-success', msg=msg))
+    for fi, f in enumerate(spec['followups']):
+        key = ops.ref_key(f['api'], f['inp'], f['opts'], None)
+        obj = ops.materialise(f['inp'])
+        out, _ = ops.outcome_of(
+            f['api'], lambda: ops.raw_call(f['api'], obj, f['opts'], None))
+        stat('followups')
+        if not canon.same(out, refs.get(key)):
+            viols.append({
+                'cls': 'later-call', 'followup_index': fi, 'api': f['api'],
+                'got': canon.short(out), 'want': canon.short(refs.get(key)),
+                'msg': 'after the stack-exhausted call(s), an ordinary %s '
+                       'call no longer gives the pristine-process result'
+                       % f['api']})
+    return {'status': 'violation' if viols else 'ok', 'viol': viols,
+            'stats': stats, 'sigs': sorted(sigs), 'sigs_nt': sorted(sigs_nt),
+            'nontrivial': bool(sigs_nt),
+            'outs': canon.digest([sorted(stats.items()), sorted(sigs)])[0],
+            'digest': canon.digest(sorted(sigs))[0],
+            'sig': None, 'sample': False}
+
+
+def on_crash(spec, st):
+    c = spec['calls'][0]
+    return {'status': 'violation', 'viol': [{
+        'cls': 'crash', 'how': st,
+        'msg': 'the interpreter was brought down (%s) by %s on %s depth %s'
+               % (st, c['api'], c['inp'].get('c'), c['inp'].get('d'))}],
+        'stats': {'crashes': 1}, 'sigs': [], 'sigs_nt': [],
+        'nontrivial': True}
+
+
+# ---------------------------------------------------------------------------
+# extra phase: the deep stratum
+
+def extra_phase(tier, seed, ws, agg, run_spec_on):
+    n = 16 if tier == 'quick' else 96
+    rng = random.Random('%s/%s/deep' % (seed, CHECK))
+    specs = [gen_deep(rng, tier, k) for k in range(n)]
+    for k, s in enumerate(specs):
+        s.update(seed=seed, idx=10 ** 9 + k)
+    pend = {}
+    for k, s in enumerate(specs):
+        w = ws[k % len(ws)]
+        w.send({'cmd': 'spec', 'spec': s, 'tag': k})
+        pend.setdefault(w, []).append(k)
+    out = {'deep_runs': 0, 'deep_cases': []}
+    for w, ks in pend.items():
+        for k in ks:
+            r = w.readline(1200.0)
+            r['idx'] = specs[k]['idx']
+            r['wid'] = w.wid
+            r['pop'] = 'deep'
+            r['spec'] = specs[k]
+            agg.add(r)
+            out['deep_runs'] += 1
+            c = specs[k]['calls'][0]
+            out['deep_cases'].append(
+                [specs[k]['limit'], c['inp']['c'], c['inp']['d'], c['api'],
+                 r.get('status'), r.get('wall')])
+            if r.get('status') == 'violation':
+                agg.viol.append(r)
+            elif r.get('status') == 'harness':
+                agg.harness.append(r)
+    return out
+
+
+# ---------------------------------------------------------------------------
+# minimisation
+
+def candidates(spec):
+    calls = spec['calls']
+    if len(calls) > 1:
+        for i in range(len(calls)):
+            c = copy.deepcopy(spec)
+            del c['calls'][i]
+            yield c
+    if len(spec['followups']) > 1:
+        for i in range(len(spec['followups'])):
+            c = copy.deepcopy(spec)
+            del c['followups'][i]
+            yield c
+    if spec.get('re_cold'):
+        c = copy.deepcopy(spec)
+        c['re_cold'] = False
+        yield c
+    if spec['state'] == 'fresh':
+        c = copy.deepcopy(spec)
+        c['state'] = 'warm'
+        yield c
+    for i, call in enumerate(calls):
+        if call.get('P'):
+            c = copy.deepcopy(spec)
+            c['calls'][i]['P'] = 0
+            yield c
+        if call['inp'].get('t') == 'nest' and call['inp']['d'] > 0:
+            for nd in (call['inp']['d'] // 2, call['inp']['d'] - 1):
+                c = copy.deepcopy(spec)
+                c['calls'][i]['inp']['d'] = nd
+                yield c
+        if call.get('opts'):
+            for k in list(call['opts']):
+                c = copy.deepcopy(spec)
+                del c['calls'][i]['opts'][k]
+                yield c
+        if call.get('form') == 'sio':
+            c = copy.deepcopy(spec)
+            c['calls'][i]['form'] = 'str'
+            yield c
+        if not spec.get('deep') and call.get('H', 0) > 1:
+            for nh in (call['H'] // 2, call['H'] - 1):
+                c = copy.deepcopy(spec)
+                c['calls'][i]['H'] = max(1, nh)
+                yield c
+
+
+def viol_class(result):
+    v = result.get('viol') or []
+    return v[0]['cls'].split(':')[0] if v else None
+
+
+def match_known(ent, spec, result):
+    return False
+
+
+TIERS = {'quick': 480 * SWEEP, 'thorough': 6000 * SWEEP}
+WALL_CAP = {'quick': 240, 'thorough': 3300}
+DET_SAMPLE = {'quick': 24, 'thorough': 100}
+
+RULE = (
+    "A run is one forked, initially pristine process: optional warm-up, 1-3 "
+    "calls made with the interpreter's own recursion check armed to fire "
+    "with H frames of head-room left at API entry (after P padding frames), "
+    "then 2-4 ordinary follow-up calls compared with the pristine-process "
+    "reference. Cases (nesting construct x depth x entry point x option set "
+    "x input form x fresh/warm lexer) are seeded; each case is swept over "
+    "64 head-room values: a contiguous window ('dense': every frame "
+    "boundary in the window) or a jittered stride over 1..threshold+30, "
+    "where the success threshold is found per case by a monotone probe. A "
+    "deep stratum nests far beyond the recursion limit at the default and "
+    "at raised limits. Non-trivial: the fault actually fired (the call "
+    "ended in SQLParseError caused by RecursionError, or RecursionError "
+    "escaped). Distinct: distinct (innermost sqlparse frame of the "
+    "overflow, construct, entry point, option-key set, lexer state) "
+    "tuples; distinct_nontrivial counts tuples of fired faults only.")
+
+SITE_PROBES = [
+    'mech_engine/grouping.py:_group_matching', 'mech_engine/grouping.py:_group',
+    'mech_utils.py:wrapped_f', 'mech_sql.py:flatten',
+    'mech_filters/others.py:process', 'mech_filters/reindent.py:_process',
+    'mech_filters/aligned_indent.py:_process',
+    'site_lexer.py:get_default_instance', 'site_lexer.py:set_SQL_REGEX',
+    'escape_excused_by_control',
+    'outcome_ok', 'outcome_sqlparseerror', 'state_fresh', 'state_warm',
+    'deep_calls', 're_cold_runs']
+
+COMPONENTS = {
+    'real': ['all of sqlparse from /repo working tree',
+             "the interpreter's own recursion check (sys.setrecursionlimit("
+             "depth + H)) raising the real RecursionError at the real frame",
+             're module (cold-cache variant re-compiles every lexer pattern '
+             'under reduced head-room)', 'process death detection by '
+             'waitpid()'],
+    'stub': ['caller stack depth (padding recursion P)', 'process '
+             'freshness (fork of a worker that imported but never called '
+             'sqlparse)']}
+
+ASSUMPTIONS = [
+    'head-room is realised through the Python-frame recursion limit; '
+    'C-stack exhaustion proper is only reached by the deep stratum at '
+    'raised limits (bounded by the ~cubic cost of grouping)',
+    'an escaping RecursionError is excused only if the un-nested control '
+    '(same entry point, options, lexer state, head-room; sibling fork) also '
+    'escapes one',
+    'success under reduced head-room is held to the round-trip/tree '
+    'guarantees, not to equality with the ample-stack result',
+    'sampling of cases; exhaustive only over the 64-value head-room window '
+    'of each dense case']
+
+
+def evidence(tier, seed, agg, meta):
+    from sim import evid
+    sites = sorted(k[5:] for k in agg.stats if k.startswith('site_')
+                   and not k.startswith('site_below_'))
+    mechs = sorted(k[5:] for k in agg.stats if k.startswith('mech_'))
+    return evid.build(CHECK, tier, seed, LEVEL, agg, meta, RULE, SITE_PROBES,
+                      COMPONENTS, ASSUMPTIONS,
+                      {'distinct_overflow_sites': len(sites),
+                       'overflow_sites': sites,
+                       'recursive_mechanisms_overflowed': mechs})
